@@ -101,4 +101,214 @@ theorem scatter_range (v xs : List Int) (h : xs.length = v.length) : scatter v (
   · have h1 : (scatter v (List.range v.length) xs).length = v.length := scatter_length _ _ _
     rw [List.getElem?_eq_none (by omega), List.getElem?_eq_none (by omega)]
 
+/-! ### the tree -/
+
+theorem lookup_setVals_self (t : Tree) (p : Path) (s : List Nat) (v v' : List Int)
+    (h : t.lookup p = some (.ds s v)) : (setVals t p v').lookup p = some (.ds s v') := by
+  induction t with
+  | nil => simp at h
+  | cons e t ih =>
+    obtain ⟨q, o⟩ := e
+    simp only [List.lookup_cons] at h
+    by_cases hq : p == q
+    · have hqp : q = p := (beq_iff_eq.mp hq).symm
+      subst hqp
+      simp only [hq] at h
+      cases h
+      simp [setVals, List.lookup_cons]
+    · simp only [hq] at h
+      have hne : ¬ q = p := fun e => hq (by simp [e])
+      have := ih h
+      simp only [setVals, hne, if_false, List.lookup_cons, hq]
+      exact this
+
+theorem lookup_setVals_other (t : Tree) (p q : Path) (v' : List Int) (hne : q ≠ p) :
+    (setVals t p v').lookup q = t.lookup q := by
+  induction t with
+  | nil => simp [setVals]
+  | cons e t ih =>
+    obtain ⟨r, o⟩ := e
+    simp only [setVals]
+    by_cases hr : r = p
+    · subst hr
+      have hq : (q == r) = false := by simp [hne]
+      cases o <;> simp [List.lookup_cons, hq]
+    · simp only [hr, if_false, List.lookup_cons, ih]
+
+theorem wf_setVals {t : Tree} {p : Path} {s : List Nat} {v v' : List Int} (wf : WF t)
+    (h : t.lookup p = some (.ds s v)) (hl : v'.length = prodN s) : WF (setVals t p v') := by
+  induction t with
+  | nil => simp at h
+  | cons e t ih =>
+    obtain ⟨q, o⟩ := e
+    simp only [List.lookup_cons] at h
+    by_cases hq : p == q
+    · have hqp : q = p := (beq_iff_eq.mp hq).symm
+      subst hqp
+      simp only [hq] at h
+      cases h
+      intro r s' w hm
+      simp only [setVals, if_true, List.mem_cons, Prod.mk.injEq, Obj.ds.injEq] at hm
+      rcases hm with ⟨_, rfl, rfl⟩ | hm
+      · exact hl
+      · exact wf r s' w (List.mem_cons_of_mem _ hm)
+    · simp only [hq] at h
+      have hne : ¬ q = p := fun e => hq (by simp [e])
+      have wft : WF t := fun r s' w hm => wf r s' w (List.mem_cons_of_mem _ hm)
+      intro r s' w hm
+      simp only [setVals, hne, if_false, List.mem_cons] at hm
+      rcases hm with hm | hm
+      · exact wf r s' w (by rw [hm]; exact List.mem_cons_self)
+      · exact ih wft h r s' w hm
+
+theorem wf_of_lookup {t : Tree} {p : Path} {s : List Nat} {v : List Int} (wf : WF t)
+    (h : t.lookup p = some (.ds s v)) : v.length = prodN s := by
+  induction t with
+  | nil => simp at h
+  | cons e t ih =>
+    obtain ⟨q, o⟩ := e
+    simp only [List.lookup_cons] at h
+    by_cases hq : p == q
+    · simp only [hq] at h
+      cases h
+      exact wf q s v List.mem_cons_self
+    · simp only [hq] at h
+      exact ih (fun r s' w hm => wf r s' w (List.mem_cons_of_mem _ hm)) h
+
+theorem find_setVals_self {t : Tree} {p : Path} {s : List Nat} {v : List Int} (v' : List Int) (hp : p ≠ [])
+    (h : find t p = some (.ds s v)) : find (setVals t p v') p = some (.ds s v') := by
+  simp only [find, hp, if_false] at h ⊢
+  exact lookup_setVals_self t p s v v' h
+
+theorem find_setVals_other (t : Tree) (p q : Path) (v' : List Int) (hne : q ≠ p) :
+    find (setVals t p v') q = find t q := by
+  simp only [find]
+  split
+  · rfl
+  · exact lookup_setVals_other t p q v' hne
+
+/-- `openDataset` only depends on the path through `splitPath` -/
+theorem openDataset_eq {t : Tree} {path : String} {p : Path} {s : List Nat} {v : List Int} :
+    openDataset t path = .ok (p, s, v) ↔ (p = splitPath path ∧ p ≠ [] ∧ find t p = some (.ds s v)) := by
+  unfold openDataset
+  simp only
+  by_cases hp : splitPath path = []
+  · simp only [hp, if_true]
+    constructor
+    · intro h; cases h
+    · rintro ⟨h1, h2, _⟩; exact absurd h1 h2
+  · simp only [hp, if_false]
+    constructor
+    · intro h
+      split at h
+      · rename_i s' v' heq
+        cases h
+        exact ⟨rfl, hp, heq⟩
+      · cases h
+    · rintro ⟨h1, _, h3⟩
+      subst h1
+      rw [h3]
+
+/-! ### `createDataset` -/
+
+def keepC (c : String) : Bool := c != "" && c != "."
+
+theorem filter_stripLead (l : List String) : (stripLead l).filter keepC = l.filter keepC := by
+  unfold stripLead
+  split
+  · simp [keepC]
+  · rfl
+
+theorem find_append_of_none {t : Tree} {q : Path} {o : Obj} (hq : q ≠ []) (h : find t q = none) :
+    find (t ++ [(q, o)]) q = some o := by
+  simp only [find, hq, if_false] at h ⊢
+  rw [List.lookup_append, h]
+  simp
+
+theorem find_append_other {t : Tree} {q r : Path} {o : Obj} (h : find t r ≠ none) :
+    find (t ++ [(q, o)]) r = find t r := by
+  simp only [find] at h ⊢
+  split
+  · rfl
+  · rename_i hr
+    simp only [hr, if_false] at h
+    rw [List.lookup_append]
+    cases hl : List.lookup r t with
+    | none => exact absurd hl h
+    | some x => simp
+
+theorem createDs_ok (dims : List Nat) : ∀ (n : Nat) (comps : List String), comps.length ≤ n →
+    ∀ (t : Tree) (cur : Path) (t' : Tree) (q : Path), createDs dims t cur comps = (t', .ok q) →
+      q = cur ++ comps.filter keepC ∧ comps.filter keepC ≠ [] ∧
+      find t' q = some (.ds dims (List.replicate (prodN dims) 0)) ∧
+      (∀ r, find t r ≠ none → find t' r = find t r) ∧ (WF t → WF t') := by
+  intro n
+  induction n with
+  | zero =>
+    intro comps hl t cur t' q h
+    have : comps = [] := List.length_eq_zero_iff.mp (by omega)
+    subst this
+    rw [createDs] at h
+    simp [stripLead] at h
+  | succ n ih =>
+    intro comps hl t cur t' q h
+    rw [createDs] at h
+    have hf := filter_stripLead comps
+    have hlen := stripLead_length_le comps
+    split at h
+    · simp at h
+    · rename_i name hs
+      rw [hs] at hf
+      split at h
+      · simp at h
+      · rename_i hname
+        split at h
+        · simp at h
+        · rename_i hnone
+          simp only [Prod.mk.injEq, Res.ok.injEq] at h
+          obtain ⟨rfl, rfl⟩ := h
+          have hk : keepC name = true := by
+            simp only [not_or] at hname
+            simp [keepC, hname.1, hname.2]
+          have hfil : comps.filter keepC = [name] := by rw [← hf]; simp [hk]
+          refine ⟨by rw [hfil], by rw [hfil]; simp, ?_, ?_, ?_⟩
+          · exact find_append_of_none (by simp) hnone
+          · intro r hr; exact find_append_other hr
+          · intro wf p s v hm
+            rcases List.mem_append.mp hm with hm | hm
+            · exact wf p s v hm
+            · simp only [List.mem_singleton, Prod.mk.injEq, Obj.ds.injEq] at hm
+              obtain ⟨_, rfl, rfl⟩ := hm
+              simp
+    · rename_i g r rest hs
+      rw [hs] at hf hlen
+      simp only [List.length_cons] at hlen
+      have hl' : (r :: rest).length ≤ n := by simp only [List.length_cons]; omega
+      split at h
+      · rename_i hg
+        have hk : keepC g = false := by rcases hg with rfl | rfl <;> simp [keepC]
+        have := ih (r :: rest) hl' t cur t' q h
+        rw [← hf]
+        simpa [List.filter_cons, hk] using this
+      · rename_i hg
+        have hk : keepC g = true := by
+          simp only [not_or] at hg
+          simp [keepC, hg.1, hg.2]
+        have hfil : comps.filter keepC = g :: (r :: rest).filter keepC := by rw [← hf]; simp [List.filter_cons, hk]
+        split at h
+        · obtain ⟨h1, h2, h3, h4, h5⟩ := ih (r :: rest) hl' t (cur ++ [g]) t' q h
+          exact ⟨by rw [hfil, h1]; simp, by rw [hfil]; simp, h3, h4, h5⟩
+        · simp at h
+        · rename_i hnone
+          obtain ⟨h1, h2, h3, h4, h5⟩ := ih (r :: rest) hl' _ (cur ++ [g]) t' q h
+          refine ⟨by rw [hfil, h1]; simp, by rw [hfil]; simp, h3, ?_, ?_⟩
+          · intro r' hr'
+            rw [h4 r' (by rw [find_append_other hr']; exact hr'), find_append_other hr']
+          · intro wf
+            apply h5
+            intro p s v hm
+            rcases List.mem_append.mp hm with hm | hm
+            · exact wf p s v hm
+            · simp at hm
+
 end OW.Proofs.C08H5
